@@ -294,7 +294,7 @@ def _walk_args(step):
     from simkit.world import _walk_specs
     return _walk_specs(step)
 
-def run_two_pass(prog, child_fn, timeout, mode=None):
+def run_two_pass(prog, child_fn, timeout, mode=None, judge=None):
     """Pass A executes the program fault-free (all oracles on; per-step event
     counts recorded); pass B executes it with the faults placed against those
     counts.  A program without unresolved faults (fault-free run, or a replay
@@ -309,6 +309,8 @@ def run_two_pass(prog, child_fn, timeout, mode=None):
         if st != 'ok':
             raise RuntimeError('run child crashed: %s' % (val,))
         val['passes'] = 1
+        if judge:
+            judge(val)
         return val
     pa = json.loads(json.dumps(prog))
     st, A = isolate.call(child_fn, (pa, {}, None), timeout=timeout, mode=mode)
@@ -316,6 +318,8 @@ def run_two_pass(prog, child_fn, timeout, mode=None):
         return {'status': 'inconclusive'}
     if st != 'ok':
         raise RuntimeError('run child (pass A) crashed: %s' % (A,))
+    if judge:
+        judge(A)
     if A.get('violations'):
         A['program'] = strip_all_faults(A.get('program') or pa)
         A['program']['pass'] = 'A (fault-free)'
@@ -326,6 +330,8 @@ def run_two_pass(prog, child_fn, timeout, mode=None):
         return {'status': 'inconclusive'}
     if st != 'ok':
         raise RuntimeError('run child (pass B) crashed: %s' % (B,))
+    if judge:
+        judge(B)
     merged = {}
     merge_stats(merged, A.get('stats', {}))
     merge_stats(merged, B.get('stats', {}))
